@@ -366,6 +366,8 @@ def main(argv):
         return c.finish(rule="build failed")
     c.proofs(extra_trusted=["harness/libvcodec.c (LD_PRELOAD interposer, pass-through logging)",
                             "Python zlib/bz2/lzma and the gzip/bzip2 command line tools as independent codecs"])
+    if c.tier == "thorough":
+        coqchk(c)
     drv, dlog = build_driver("C15")
     impl = hx_bin("hx_compress")
     P = gen_payloads(c)
